@@ -106,6 +106,16 @@ class FuncInfo:
         a = self.node.args
         return [x.arg for x in a.posonlyargs + a.args]
 
+    @property
+    def args(self) -> List[str]:
+        """the parameters a caller supplies, in order: positional ones without the receiver (self / cls), then keyword-only ones - the same
+        list whether the function is a method, a classmethod, a staticmethod or was given keyword-only parameters"""
+        a = self.node.args
+        pos = [x.arg for x in a.posonlyargs + a.args]
+        if self.cls is not None and self.kind in ("method", "classmethod", "property", "setter") and pos:
+            pos = pos[1:]
+        return pos + [x.arg for x in a.kwonlyargs]
+
 
 @dataclass
 class External:
@@ -222,6 +232,10 @@ class Program:
         # consistent renames of private names are undone first (alpha-equivalent program, see sa/names.py)
         from . import names
         self.renamed, self.rename_diag = names.canonicalise({m.rel: m.tree for m in self.modules.values()}, mode=self.rename_mode)
+        # definitions moved to another module of the package and re-imported / re-bound under their old name are moved back (sa/moves.py)
+        from . import moves
+        self.moves_undone = moves.undo({m.rel: m.tree for m in self.modules.values()})
+        self.moves_undone += moves.undo_signatures({m.rel: m.tree for m in self.modules.values()})
         for m in self.modules.values():
             self._index_imports(m)
         for m in self.modules.values():
